@@ -1406,3 +1406,297 @@ func VC15AddHole(r *rand.Rand, c *VC15Case) {
 	}
 	c.tag("hole")
 }
+
+// ---------------------------------------------------------------- small concrete replies (consumer model ties)
+
+func vSmallBool(b bool) string {
+	if b {
+		return "true"
+	}
+	return "false"
+}
+
+func vSmallBytes(b []byte) string { return VC15CoqBytes(string(b)) }
+
+// VC15SmallSteps: the rdata of the record types this generator builds, as C15.Concrete steps.
+func VC15SmallSteps(rr dns.RR) (string, bool) {
+	lit := func(x []byte) string { return "SBytes " + vSmallBytes(x) }
+	nm := func(s string, compressible bool) string {
+		return fmt.Sprintf("SName %s %s", VC15CoqBytes(s), vSmallBool(compressible))
+	}
+	u16 := func(v uint16) []byte { return []byte{byte(v >> 8), byte(v)} }
+	u32 := func(v uint32) []byte { return []byte{byte(v >> 24), byte(v >> 16), byte(v >> 8), byte(v)} }
+	var parts []string
+	switch v := rr.(type) {
+	case *dns.A:
+		if len(v.A) != 4 {
+			return "", false
+		}
+		parts = append(parts, lit(v.A))
+	case *dns.AAAA:
+		if len(v.AAAA) != 16 {
+			return "", false
+		}
+		parts = append(parts, lit(v.AAAA))
+	case *dns.NS:
+		parts = append(parts, nm(v.Ns, true))
+	case *dns.CNAME:
+		parts = append(parts, nm(v.Target, true))
+	case *dns.MX:
+		parts = append(parts, lit(u16(v.Preference)), nm(v.Mx, true))
+	case *dns.TXT:
+		if len(v.Txt) == 0 {
+			return "", false
+		}
+		for _, s := range v.Txt {
+			if strings.Contains(s, "\\") || len(s) > 255 {
+				return "", false
+			}
+			parts = append(parts, lit(append([]byte{byte(len(s))}, s...)))
+		}
+	case *dns.SOA:
+		fixed := append(append(append(append(u32(v.Serial), u32(v.Refresh)...), u32(v.Retry)...), u32(v.Expire)...), u32(v.Minttl)...)
+		parts = append(parts, nm(v.Ns, true), nm(v.Mbox, true), lit(fixed))
+	case *dns.DS:
+		d, err := hex.DecodeString(v.Digest)
+		if err != nil || len(d) == 0 {
+			return "", false
+		}
+		parts = append(parts, lit(append(append(u16(v.KeyTag), v.Algorithm, v.DigestType), d...)))
+	case *dns.RRSIG:
+		sig, err := base64.StdEncoding.DecodeString(v.Signature)
+		if err != nil || len(sig) == 0 || len(sig)%3 != 0 {
+			return "", false
+		}
+		fixed := append(u16(v.TypeCovered), v.Algorithm, v.Labels)
+		fixed = append(append(append(append(fixed, u32(v.OrigTtl)...), u32(v.Expiration)...), u32(v.Inception)...), u16(v.KeyTag)...)
+		parts = append(parts, lit(fixed), nm(v.SignerName, false), lit(sig))
+	case *dns.NSEC:
+		// RFC 4034 4.1.2, one window: types below 256, strictly increasing, not empty
+		if len(v.TypeBitMap) == 0 {
+			return "", false
+		}
+		var block [32]byte
+		n := 0
+		for i, t := range v.TypeBitMap {
+			if t > 255 || (i > 0 && t <= v.TypeBitMap[i-1]) {
+				return "", false
+			}
+			block[t/8] |= 1 << (7 - t%8)
+			n = int(t/8) + 1
+		}
+		parts = append(parts, nm(v.NextDomain, false), lit(append([]byte{0, byte(n)}, block[:n]...)))
+	case *dns.OPT:
+		for _, o := range v.Option {
+			var data []byte
+			switch e := o.(type) {
+			case *dns.EDNS0_EDE:
+				data = append(u16(e.InfoCode), e.ExtraText...)
+			case *dns.EDNS0_PADDING:
+				data = e.Padding
+			default:
+				return "", false
+			}
+			parts = append(parts, lit(append(u16(o.Option()), u16(uint16(len(data)))...)))
+			if len(data) > 0 {
+				parts = append(parts, lit(data))
+			}
+		}
+	default:
+		return "", false
+	}
+	return "[" + strings.Join(parts, ";") + "]", true
+}
+
+// VC15SmallReply: a small reply of such records.
+func VC15SmallReply(r *rand.Rand) *dns.Msg {
+	m := new(dns.Msg)
+	VC15Header(r, m)
+	m.Rcode = []int{0, 0, 0, 0, 0, 0, 2, 3, 3, 3, 5, 16, 23, 4095}[r.Intn(14)]
+	m.Compress = r.Intn(2) == 0
+	base := []string{"example.com.", "a.example.org.", "Example.COM.", "xn--bcher-kva.example.", "."}[r.Intn(5)]
+	pick := func() string {
+		switch r.Intn(5) {
+		case 0:
+			return base
+		case 1:
+			return "www." + base
+		case 2:
+			return "ns1.a." + strings.ToLower(base)
+		case 3:
+			return "mail.example.net."
+		}
+		return "a.b." + base
+	}
+	if base == "." {
+		pick = func() string { return []string{".", "com.", "a.root-servers.net.", "net."}[r.Intn(4)] }
+	}
+	qname := pick()
+	qtype := []uint16{dns.TypeA, dns.TypeA, dns.TypeAAAA, dns.TypeMX, dns.TypeCNAME, dns.TypeDS, dns.TypeRRSIG, dns.TypeTXT}[r.Intn(8)]
+	for i := []int{1, 1, 1, 1, 1, 1, 0, 2}[r.Intn(8)]; i > 0; i-- {
+		m.Question = append(m.Question, dns.Question{Name: qname, Qtype: qtype, Qclass: dns.ClassINET})
+		qtype = dns.TypeRRSIG // a second question asking for signatures does not count
+	}
+	if len(m.Question) > 0 && r.Intn(10) == 0 {
+		m.Question[0].Name = VC15OddQName(r)
+	}
+	rb := func(n int) []byte { d := make([]byte, n); r.Read(d); return d }
+	hdr := func(name string, t uint16) dns.RR_Header {
+		return dns.RR_Header{Name: name, Rrtype: t, Class: dns.ClassINET, Ttl: uint32(r.Intn(90000)), Rdlength: uint16(40000 + r.Intn(100))}
+	}
+	sig := func(owner string, covered uint16) dns.RR {
+		return &dns.RRSIG{Hdr: hdr(owner, dns.TypeRRSIG), TypeCovered: covered, Algorithm: 13, Labels: uint8(r.Intn(5)), OrigTtl: 3600, Expiration: r.Uint32(), Inception: r.Uint32(),
+			KeyTag: uint16(r.Intn(65536)), SignerName: base, Signature: base64.StdEncoding.EncodeToString(rb(3 * (1 + r.Intn(8))))}
+	}
+	mk := func() dns.RR {
+		owner := pick()
+		if r.Intn(3) == 0 {
+			owner = qname
+		}
+		switch r.Intn(11) {
+		case 0, 1:
+			return &dns.A{Hdr: hdr(owner, dns.TypeA), A: net.IP(rb(4))}
+		case 2:
+			return &dns.AAAA{Hdr: hdr(owner, dns.TypeAAAA), AAAA: net.IP(rb(16))}
+		case 3:
+			return &dns.NS{Hdr: hdr(owner, dns.TypeNS), Ns: pick()}
+		case 4:
+			return &dns.CNAME{Hdr: hdr(owner, dns.TypeCNAME), Target: pick()}
+		case 5:
+			return &dns.MX{Hdr: hdr(owner, dns.TypeMX), Preference: uint16(r.Intn(100)), Mx: pick()}
+		case 6:
+			return &dns.TXT{Hdr: hdr(owner, dns.TypeTXT), Txt: []string{"v=spf1 -all", "x"}[:1+r.Intn(2)]}
+		case 7:
+			return &dns.SOA{Hdr: hdr(owner, dns.TypeSOA), Ns: pick(), Mbox: pick(), Serial: r.Uint32(), Refresh: 7200, Retry: 900, Expire: 1209600, Minttl: 300}
+		case 8:
+			return &dns.DS{Hdr: hdr(owner, dns.TypeDS), KeyTag: uint16(r.Intn(65536)), Algorithm: 13, DigestType: 2, Digest: hex.EncodeToString(rb(32))}
+		case 9:
+			var ts []uint16
+			t := 0
+			for i := 1 + r.Intn(5); i > 0; i-- {
+				t += 1 + r.Intn(40)
+				ts = append(ts, uint16(t))
+			}
+			return &dns.NSEC{Hdr: hdr(owner, dns.TypeNSEC), NextDomain: pick(), TypeBitMap: ts}
+		}
+		return sig(owner, dns.TypeA)
+	}
+	signed := r.Intn(3) != 0
+	fill := func(n int) []dns.RR {
+		var out []dns.RR
+		for i := 0; i < n; i++ {
+			rr := mk()
+			out = append(out, rr)
+			if _, isSig := rr.(*dns.RRSIG); signed && !isSig && r.Intn(2) == 0 {
+				out = append(out, sig(rr.Header().Name, rr.Header().Rrtype))
+			}
+		}
+		return out
+	}
+	m.Answer, m.Ns, m.Extra = fill(r.Intn(4)), fill(r.Intn(3)), fill(r.Intn(3))
+	// a DNSSEC object wearing another type, another object wearing a DNSSEC type: the filters go by object
+	if all := append(append([]dns.RR{}, m.Answer...), m.Ns...); len(all) > 0 && r.Intn(5) == 0 {
+		rr := all[r.Intn(len(all))]
+		if _, isSig := rr.(*dns.RRSIG); isSig {
+			rr.Header().Rrtype = dns.TypeTXT
+		} else {
+			rr.Header().Rrtype = []uint16{dns.TypeRRSIG, dns.TypeNSEC, dns.TypeNSEC3}[r.Intn(3)]
+		}
+	}
+	// EDNS: none / last / first / two / retyped object / the object also in another section / with options
+	mkOpt := func() *dns.OPT {
+		o := &dns.OPT{Hdr: dns.RR_Header{Name: ".", Rrtype: dns.TypeOPT, Class: 1232, Ttl: []uint32{0, 0x8000, 0xAB008000}[r.Intn(3)], Rdlength: 77}}
+		switch r.Intn(4) {
+		case 0:
+			o.Option = append(o.Option, &dns.EDNS0_EDE{InfoCode: uint16(r.Intn(30)), ExtraText: []string{"", "signature expired"}[r.Intn(2)]})
+		case 1:
+			o.Option = append(o.Option, &dns.EDNS0_PADDING{Padding: make([]byte, r.Intn(12))}, &dns.EDNS0_EDE{InfoCode: 6})
+		}
+		return o
+	}
+	switch r.Intn(9) {
+	case 0, 1:
+	case 2, 3, 4:
+		m.Extra = append(m.Extra, mkOpt())
+	case 5:
+		m.Extra = append([]dns.RR{mkOpt()}, m.Extra...)
+	case 6:
+		m.Extra = append(append([]dns.RR{mkOpt()}, m.Extra...), mkOpt())
+	case 7:
+		o := mkOpt()
+		o.Hdr.Rrtype = []uint16{0, dns.TypeA, dns.TypeTXT}[r.Intn(3)]
+		at := r.Intn(len(m.Extra) + 1)
+		m.Extra = append(m.Extra[:at:at], append([]dns.RR{o}, m.Extra[at:]...)...)
+		if r.Intn(2) == 0 {
+			m.Extra = append(m.Extra, mkOpt())
+		}
+	default:
+		o := mkOpt()
+		m.Extra = append(m.Extra, o)
+		if r.Intn(2) == 0 {
+			m.Answer = append(m.Answer, o)
+		} else {
+			m.Ns = append([]dns.RR{o}, m.Ns...)
+		}
+	}
+	if r.Intn(20) == 0 {
+		if recs := VC15Records(m); len(recs) > 0 {
+			if rr := recs[r.Intn(len(recs))]; rr.Header().Rrtype != dns.TypeOPT {
+				rr.Header().Name = "not-fully-qualified" // the library refuses: no entry
+			}
+		}
+	}
+	return m
+}
+
+func VC15IsDNSSECObject(rr dns.RR) bool {
+	switch rr.(type) {
+	case *dns.RRSIG, *dns.NSEC, *dns.NSEC3:
+		return true
+	}
+	return false
+}
+
+
+// VC15SmallTerm renders a reply of VC15SmallReply as a C15.Run.cmsg term, with the ids of the
+// objects whose Go type is RRSIG / NSEC / NSEC3 (a Coq list of N).
+func VC15SmallTerm(m *dns.Msg) (term string, dnssecIDs string, ok bool) {
+	sh := VC15MakeShapes(m)
+	recs := VC15Records(m)
+	var ids []string
+	seen := map[int]bool{}
+	ok = true
+	render := func(lo, hi int) string {
+		var parts []string
+		for i := lo; i < hi; i++ {
+			rr := recs[i]
+			steps, okSteps := VC15SmallSteps(rr)
+			if !okSteps {
+				ok = false
+			}
+			kind := "KOther"
+			if _, isOpt := rr.(*dns.OPT); isOpt {
+				kind = "KOpt"
+			}
+			if VC15IsDNSSECObject(rr) && !seen[sh.PtrOf[i]] {
+				seen[sh.PtrOf[i]] = true
+				ids = append(ids, fmt.Sprint(sh.PtrOf[i]))
+			}
+			h := rr.Header()
+			parts = append(parts, fmt.Sprintf("R %s %s %d %d %d %d %d %s", VC15CoqBytes(h.Name), kind, sh.PtrOf[i], h.Rrtype, h.Class, h.Ttl, h.Rdlength, steps))
+		}
+		return "[" + strings.Join(parts, ";") + "]"
+	}
+	var qs []string
+	for _, q := range m.Question {
+		qs = append(qs, fmt.Sprintf("(%s, %d%%N, %d%%N)", VC15CoqBytes(q.Name), q.Qtype, q.Qclass))
+	}
+	na, nn := len(m.Answer), len(m.Ns)
+	term = fmt.Sprintf("(CM %s %s [%s] %s %s %s)", VC15CoqHeader(m), vBool(m.Compress), strings.Join(qs, ";"),
+		render(0, na), render(na, na+nn), render(na+nn, len(recs)))
+	dnssecIDs = "[]"
+	if len(ids) > 0 {
+		dnssecIDs = "[" + strings.Join(ids, ";") + "]%N"
+	}
+	return term, dnssecIDs, ok
+}
